@@ -57,10 +57,12 @@ type req struct{ i, b, l uint32 }
 
 var classes = map[string]req{
 	"r0": {0, 0, CS},
-	"r1": {1, 100, 5000},  // unaligned, inside piece 1
-	"rx": {0, 30000, CS},  // runs past the end of piece 0
-	"rz": {9, 0, CS},      // beyond the torrent
-	"rh": {0, 0, 1 << 30}, // a huge length
+	"r1": {1, 100, 5000},     // unaligned, inside piece 1
+	"rx": {0, 30000, CS},     // runs past the end of piece 0
+	"rz": {9, 0, CS},         // beyond the torrent
+	"rh": {0, 0, 1 << 30},    // a huge length
+	"rw": {1 << 17, 0, CS},   // index * piece size = 2^32: wraps to offset 0 in 32-bit arithmetic
+	"rb": {1, 0xFFFFFFFF, 1}, // piece size + 2^32 - 1 wraps into piece 0
 }
 
 type remote struct {
